@@ -15,6 +15,12 @@ func init() { generators["C13"] = genC13 }
 
 // guarded runs f, reporting panic / excessive time / excessive allocation
 func guarded(c *Ctx, what string, input []byte, f func()) (panicked bool) {
+	return guardedBudget(c, what, input, 32<<20, 2*time.Second, f)
+}
+
+// guardedBudget: [base] bytes of allocation (plus 4 kB per input byte) and [limit] of time are allowed; a whole
+// scenario of many calls gets a budget in proportion to its number of calls
+func guardedBudget(c *Ctx, what string, input []byte, base uint64, limit time.Duration, f func()) (panicked bool) {
 	var m0, m1 runtime.MemStats
 	runtime.ReadMemStats(&m0)
 	t0 := time.Now()
@@ -30,10 +36,10 @@ func guarded(c *Ctx, what string, input []byte, f func()) (panicked bool) {
 	dt := time.Since(t0)
 	runtime.ReadMemStats(&m1)
 	alloc := m1.TotalAlloc - m0.TotalAlloc
-	if dt > 2*time.Second {
+	if dt > limit {
 		c.Violate("slow", what, fmt.Sprintf("call took %v", dt), map[string]string{"input_hex": hex(trunc200(input))})
 	}
-	if alloc > uint64(32<<20)+uint64(len(input))*4096 {
+	if alloc > base+uint64(len(input))*4096 {
 		c.Violate("alloc", what, fmt.Sprintf("call allocated %d bytes for %d input bytes", alloc, len(input)), map[string]string{"input_hex": hex(trunc200(input))})
 	}
 	return
@@ -285,9 +291,11 @@ func genC13(c *Ctx) {
 				pol |= []int{polRequire, polWSStart, polErrStart, polSendWS}[c.R.Intn(4)]
 			}
 			s := c13State(c, st, pol)
+			var fed []string
 			for k := 0; k < perState; k++ {
 				to := 1 + c.R.Intn(2)
 				in := c.hostileWire(s, to)
+				fed = append(fed, fmt.Sprintf("Receive(%d, %q)", to, trunc200(in)))
 				guarded(c, fmt.Sprintf("Receive(state=%d)", st), in, func() { s.ps[to].c.Receive(in) })
 				c.Rep.Evaluations++
 			}
@@ -309,7 +317,8 @@ func genC13(c *Ctx) {
 				}
 			})
 			if !usable {
-				c.Violate("unusable-after-hostile-input", fmt.Sprintf("state=%d", st), "after the hostile inputs a new key exchange plus one message did not get through", s.trace[len(s.trace)-min2(12, len(s.trace)):])
+				c.Violate("unusable-after-hostile-input", fmt.Sprintf("state=%d", st), "after the hostile inputs a new key exchange plus one message did not get through",
+					map[string]interface{}{"policies": []int{pol, pol}, "state": st, "hostile_inputs": fed, "then": s.trace[len(s.trace)-min2(12, len(s.trace)):]})
 			}
 		}
 	}
@@ -354,10 +363,12 @@ func c13RandFailure(c *Ctx) {
 			pols := []int{pol, pol}
 			s := newSys(pols, uint64(1000+k))
 			s.ps[who].rnd.fail = k
-			guarded(c, fmt.Sprintf("rand-failure(k=%d)", k), nil, func() {
+			// up to ~350 calls (handshake, 160 rounds of send + deliveries, 6 more): 1 MB and 20 ms per call are generous
+			guardedBudget(c, fmt.Sprintf("rand-failure(k=%d)", k), nil, 400<<20, 8*time.Second, func() {
 				s.Handshake(1, 2)
 				tn := 0
-				for r := 0; r < 40 && s.ps[who].rnd.fail > 0; r++ {
+				// traffic until the armed read has happened (one read per rotation: later k need more rounds)
+				for r := 0; r < 160 && s.ps[who].rnd.fail > 0; r++ {
 					a := 1 + r%2
 					tn++
 					s.Send(a, []byte(fmt.Sprintf("r%d", tn)))
@@ -371,6 +382,12 @@ func c13RandFailure(c *Ctx) {
 						s.ps[w].pending = len(s.ps[w].outs)
 					}
 					s.Handshake(1, 2)
+				}
+				if s.ps[who].rnd.fail > 0 {
+					// the k-th read was never made: nothing failed, nothing to judge (the message during which a
+					// read fails may itself be lost, so the texts below are only counted once the failure is behind us)
+					c.Count("rand-failure:not-reached")
+					return
 				}
 				// after the failure the session keeps working: the next texts all arrive
 				n1, n2 := len(s.ps[1].plains), len(s.ps[2].plains)
